@@ -310,7 +310,7 @@ PROPS['C10'] = dict(
          'queries from a logged-in scripted session and others: fragment probes of 2..2047 bytes (every answer size class incl. TXT string and MX/SRV '
          'record-count boundaries), echo requests with arbitrary label bytes (no dot, no NUL), codec tests, NS / A ns. / A www. / AAAA / ANY / type 0 / '
          '65535 / CNAME queries for the domain and sub-names, names of up to 253 characters with labels of arbitrary bytes, names outside the domain, '
-         'EDNS0 on/off, IPv4/IPv6. (c) 10%: real iodine client + real iodined tunnel sessions as in C01/C02. (b) and (c) are judged by the wire monitor '
+         'EDNS0 on/off, IPv4/IPv6. (c) 10%: real iodine client + real iodined tunnel sessions as in C01/C02, one in three with any -M the option parser accepts (10..255) in front of a long domain. (b) and (c) are judged by the wire monitor '
          'on every datagram either program passes to sendto(): well-formed, answers match an unanswered query on (source, id, name, type), class IN, '
          'owners resolve to the question, NS -> ns.<domain> (+ glue A owned by it), A ns./www. -> one 4-byte A record (www -> 127.0.0.1); client queries: '
          'QR=0, RD=1, one question, plain OPT record at most, name within -M and under the domain. non-trivial iff multi-string TXT / multi-record / long '
